@@ -64,7 +64,7 @@ package activeauth
 //@        && pubKey.N.val == rsaModN(spkiKeyBytes(dg15.SubjectPublicKeyInfoBytes)) && pubKey.E == rsaExpE(spkiKeyBytes(dg15.SubjectPublicKeyInfoBytes)) && pubKey.N.val > 0
 //@   proves "rsa-recovered-representative": result != nil && result.Success && pubKey != nil ==> beS(intAuthRspBytes) < pubKey.N.val
 //@        && beS(f) == modexp(beS(intAuthRspBytes), pubKey.E, pubKey.N.val) && (len(f) == 0 || f[0] != 0)
-//@   proves "rsa-minimal-octets": result != nil && result.Success && pubKey != nil ==> seqid(minBytes(beS(f)), f)
+//@   proves "rsa-minimal-octets": result != nil && result.Success && pubKey != nil ==> minBytes(beS(f)) === f
 //@   proves "rsa-hash-input-is-m1-then-challenge": result != nil && result.Success && pubKey != nil ==> m === cat(m1, rndIfd) && expD === hashF(hashAlg, m)
 //@   proves "rsa-digest-over-m1-and-challenge": result != nil && result.Success && pubKey != nil ==> 3 <= hashAlg && hashAlg <= 7 && d === hashF(hashAlg, cat(m1, rndIfd))
 //@   proves "rsa-9796-2-structure": result != nil && result.Success && pubKey != nil ==> valid9796(f, m1, hashAlg, rndIfd)
